@@ -1,6 +1,109 @@
-(* Props/C11.v -- ASCII output conforms to the grammar published in the README. *)
-From Nv Require Import Model.Readme Gen.ReadmeGrammar Gen.EnumFormats Proofs.ReadmeP.
+(* Props/C11.v -- ASCII output conforms to the grammar published in the README.
 
+   Objects:  readme_grammar   the PEG AST REGENERATED from the pest block of README.md (table T7)
+             expected_grammar the reference grammar written out by hand (Model/Readme.v)
+             readme_parse_with ucls G fuel s : rres   the PEG interpreter with pest semantics, whole-input
+                              match of rule `narsese`; `RValue v` = accepted, v : lnarsese carries the kind
+                              (NTerm / NSentence / NTask) and the tree as a lexical model value
+             ucls_tab         Unicode classes: general categories L/N/P/S (range tables), White_Space
+             opennars_lexicon the OpenNARS ASCII keyword table, written out independently
+             lterm_wf / term_ok_readme   well-formedness (names satisfy name_ok_readme, which excludes K4)
+
+   FULL STATEMENT (not proved in full; decided by the correspondence stream `C11`, where the interpreter
+   is the oracle on real formatter output and the real lexical parser supplies kind and tree):
+     forall v : narsese, wf ASCII v -> names_ok_readme v ->
+       exists n, forall m >= n,
+         readme_parse_with ucls_tab readme_grammar m (fmt_narsese FORMAT_ASCII v)
+           = RValue (lex_of_narsese FORMAT_ASCII v)
+     and the same for lfmt_narsese lex_ascii_layout x = RValue x for well-formed lexical values x.
+   PROVED below: the statement for every value of kind TERM (C11_lex_terms, C11_enum_terms), by structural
+   induction on terms: accepted by the entry rule `narsese`, classified as a term (the task and sentence
+   alternatives fail), and the derived tree is the value itself.  Missing for the full statement: the
+   sentence / task layer (punctuation, stamp, truth, budget), which is differential testing only. *)
+From Coq Require Import String.
+From Nv Require Import Model.Readme Gen.ReadmeGrammar Gen.EnumFormats Proofs.PegP Proofs.ReadmeP Proofs.ReadmeConfP Proofs.ReadmeEnumP.
+
+(* (i) the grammar in README.md is the pinned reference grammar; README.en.md differs in the rule `atom` only *)
 Theorem readme_pinned : readme_grammar = expected_grammar.
 Proof. exact readme_pinned_proof. Qed.
 Print Assumptions readme_pinned.
+
+Theorem readme_en_diff_pinned : readme_en_diff = [(ss "atom", ss "unparsable")].
+Proof. exact readme_en_diff_pinned_proof. Qed.
+Print Assumptions readme_en_diff_pinned.
+
+Theorem expected_grammar_closed : grammar_closed expected_grammar = true.
+Proof. exact expected_grammar_closed_proof. Qed.
+Print Assumptions expected_grammar_closed.
+
+(* (ii) the ASCII keyword tables of the enum format and of the lexical format are the OpenNARS lexicon *)
+Theorem lexicon_pinned :
+  lexicon_eqb (lexicon_of_efmt FORMAT_ASCII) opennars_lexicon = true /\
+  lexicon_eqb lex_ascii_lexicon opennars_lexicon = true /\
+  layout_of_efmt FORMAT_ASCII = lex_ascii_layout.
+Proof. exact (conj lexicon_enum_pinned_proof (conj lexicon_lex_pinned_proof layout_pinned_proof)). Qed.
+Print Assumptions lexicon_pinned.
+
+(* every keyword literal of the README grammar belongs to the lexicon, and every keyword of the lexicon is
+   accepted (whole) by the rule of the grammar for its class *)
+Theorem lexicon_vs_grammar :
+  forallb (literal_in_lexicon opennars_lexicon) (grammar_literals readme_grammar) = true /\
+  lexicon_in_grammar readme_grammar opennars_lexicon = true.
+Proof. exact (conj grammar_literals_in_lexicon_proof lexicon_in_grammar_proof). Qed.
+Print Assumptions lexicon_vs_grammar.
+
+(* the Unicode tables satisfy what the conformance proofs use of them *)
+Theorem unicode_tables_ok : ucls_ok ucls_tab.
+Proof. exact ucls_tab_ok. Qed.
+Print Assumptions unicode_tables_ok.
+
+(* known class K4: its witness is not a sentence of the grammar *)
+Theorem C11_K4_witness :
+  name_ok_readme ucls_tab (ss "a---b") = false /\
+  k4_free (ss "a---b") = false /\
+  readme_parse (ss "a---b") = RReject /\
+  lfmt_term lex_ascii_layout (LAtom [] (ss "a---b")) = ss "a---b".
+Proof. exact C11_K4_witness_proof. Qed.
+Print Assumptions C11_K4_witness.
+
+(* (iii) conformance, kind TERM: lexical formatter *)
+Theorem C11_lex_terms : forall x,
+  lterm_wf ucls_tab opennars_lexicon x = true ->
+  exists n, forall m, (n <= m)%nat ->
+    readme_parse_with ucls_tab readme_grammar m (lfmt_term lex_ascii_layout x) = RValue (NTerm x).
+Proof. exact C11_lex_terms_proof. Qed.
+Print Assumptions C11_lex_terms.
+
+(* (iii) conformance, kind TERM: enum formatter; the tree is lex_of_term (compared with the real lexical
+   parser on every case of the correspondence stream) *)
+Theorem C11_enum_terms : forall t,
+  term_ok_readme ucls_tab t = true ->
+  exists n, forall m, (n <= m)%nat ->
+    readme_parse_with ucls_tab readme_grammar m (fmt_term FORMAT_ASCII t) = RValue (NTerm (lex_of_term FORMAT_ASCII t)).
+Proof. exact C11_enum_terms_proof. Qed.
+Print Assumptions C11_enum_terms.
+
+(* the same for every instance of the Unicode classes with the three stated properties *)
+Theorem C11_lex_terms_any_unicode : forall ucls x,
+  ucls_ok ucls -> lterm_wf ucls opennars_lexicon x = true ->
+  exists n, forall m, (n <= m)%nat ->
+    readme_parse_with ucls expected_grammar m (lfmt_term SL x) = RValue (NTerm x).
+Proof. exact lex_term_conforms. Qed.
+Print Assumptions C11_lex_terms_any_unicode.
+
+(* the enum formatter prints exactly what the lexical formatter prints for lex_of_term, for EVERY format *)
+Theorem fmt_term_is_lfmt_of_lex : forall E t,
+  fmt_term E t = lfmt_term (layout_of_efmt E) (lex_of_term E t).
+Proof. exact fmt_lex_term. Qed.
+Print Assumptions fmt_term_is_lfmt_of_lex.
+
+(* the hypotheses are satisfiable *)
+Example ex_C11_lex_terms :
+  lterm_wf ucls_tab opennars_lexicon sample_lterm = true /\
+  lfmt_term lex_ascii_layout sample_lterm =
+    ss "<(&/, <ball {-] left>, <(*, {SELF}, $any, #some) --> ^go-to>) ==> <SELF {-] good>>" /\
+  readme_parse_g readme_grammar (lfmt_term lex_ascii_layout sample_lterm) = RValue (NTerm sample_lterm).
+Proof. exact (conj sample_lterm_wf sample_lterm_parse). Qed.
+
+Example ex_C11_enum_terms : term_ok_readme ucls_tab sample_term = true.
+Proof. exact sample_term_ok. Qed.
